@@ -306,7 +306,69 @@ func checkP(c PCase, r *vf.R) error {
 			return err
 		}
 	}
+	// vertical writing modes: a span is placed at its position in the column and, for scripts that are not written vertically, rotated as a whole (span.Rotation); the glyph outlines in the span's own frame are as above
+	for _, mode := range []canvas.WritingMode{canvas.VerticalRL, canvas.VerticalLR} {
+		rt := canvas.NewRichText(face)
+		rt.SetWritingMode(mode)
+		rt.WriteString(strings.ReplaceAll(c.Text, "\n", " "))
+		var txt *canvas.Text
+		rr := rec.New(200, 200)
+		if err := vf.Try("vertical RenderAsPath", func() {
+			txt = rt.ToText(0, 150, canvas.Left, canvas.Top, 0, 0)
+			txt.RenderAsPath(rr, canvas.Identity.Translate(50, 180), 0)
+		}); err != nil {
+			return err
+		}
+		var all, exp []oracle.Seg
+		for _, call := range rr.Calls {
+			if call.Kind != "path" {
+				continue
+			}
+			sg, err := decode(call.Path.Copy().Transform(call.M))
+			if err != nil {
+				return vf.Errorf("vertical RenderAsPath: %v", err)
+			}
+			all = append(all, sg...)
+		}
+		var werr error
+		rotated := false
+		txt.WalkSpans(func(x, y float64, span canvas.TextSpan) {
+			if !span.IsText() {
+				return
+			}
+			sg, _, err := glyphOutlines(span.Face, span.Glyphs)
+			if err != nil {
+				werr = err
+				return
+			}
+			bx := 50 + x - span.Face.MmPerEm*float64(span.Face.XOffset)
+			by := 180 + y - span.Face.MmPerEm*float64(span.Face.YOffset)
+			m := oracle.Translate(bx, by).Mul(oracle.Rotate(float64(span.Rotation)))
+			if span.Rotation != 0 {
+				rotated = true
+			}
+			for _, s0 := range sg {
+				exp = append(exp, mapSeg(s0, m))
+			}
+		})
+		if werr != nil {
+			return vf.Errorf("glyph outlines: %v", werr)
+		}
+		r.ClassIf(rotated, "vertical-rotated-span")
+		if err := sameOutlines(fmt.Sprintf("RenderAsPath of %q in writing mode %v", c.Text, mode), all, exp, tol*10); err != nil {
+			return err
+		}
+	}
 	return nil
+}
+
+func mapSeg(s oracle.Seg, m oracle.Mat) oracle.Seg {
+	out := oracle.Seg{Cmd: s.Cmd, P0: m.Apply(s.P0), Args: append([]float64(nil), s.Args...)}
+	for i := 0; i+1 < len(out.Args); i += 2 {
+		q := m.Apply(oracle.Pt{X: s.Args[i], Y: s.Args[i+1]})
+		out.Args[i], out.Args[i+1] = q.X, q.Y
+	}
+	return out
 }
 
 func shift(s oracle.Seg, dx, dy float64) oracle.Seg {
